@@ -317,7 +317,7 @@ let run_trace_block () =
 
 (* lookup <in_max> <iter_max> <skip 0|1> | d1 rows k:p:o:l:c:s,... | loose k:size,... | d2 rows | ks k,k,...
    -> status  P:k:p:o:l:c:s / L:k:size / M:k  (generator order) *)
-let cmd_lookup args =
+let cmd_lookup_gen streams args =
   match List.map String.trim (String.split_on_char '|' args) with
   | [hd; d1; ls; d2; ks] ->
       let row s = (match List.map int_of_string (String.split_on_char ':' s) with
@@ -334,12 +334,21 @@ let cmd_lookup args =
              | FPacked r -> Printf.sprintf "P:%d:%d:%d:%d:%d:%d" (int_of_n r.rkey) (int_of_z r.rpack) (int_of_nat r.roff) (int_of_nat r.rlen) (if r.rcomp then 1 else 0) (int_of_nat r.rsize)
              | FLoose (k, sz) -> Printf.sprintf "L:%d:%d" (int_of_n k) (int_of_nat sz)
              | FMissing k -> Printf.sprintf "M:%d" (int_of_n k) in
-           Printf.printf "%s %s\n" (status_s st) (String.concat "," (List.map f out))
+           (match streams with
+            | None -> Printf.printf "%s %s\n" (status_s st) (String.concat "," (List.map f out))
+            | Some sm ->
+                let evs = lookup_events { in_max = nat_of_int inm; iter_max = nat_of_int itm } (skip = 1) sm (rows d1) loose (rows d2)
+                            (List.map (fun k -> n_of_int k) (ints ks)) in
+                let e = function
+                  | ROpenPack p -> Printf.sprintf "op%d" (int_of_z p) | RClosePack p -> Printf.sprintf "cp%d" (int_of_z p)
+                  | ROpenLoose k -> Printf.sprintf "ol%d" (int_of_n k) | RCloseLoose k -> Printf.sprintf "cl%d" (int_of_n k)
+                  | RMiss k -> Printf.sprintf "ms%d" (int_of_n k) | RReset -> "reset" | RYield x -> "y" ^ f x in
+                Printf.printf "%s %s\n" (status_s st) (String.concat "," (List.map e evs)))
        | _ -> failwith "lookup: bad header")
   | _ -> failwith "lookup: bad args"
 
 let () =
-  let extra = ref [("lookup", cmd_lookup); ("pick", cmd_pick); ("estimate", cmd_estimate); ("plan", cmd_plan); ("segs", cmd_segs); ("por", cmd_por); ("bio", cmd_bio true); ("fio", cmd_bio false); ("zsd", cmd_zsd)] in
+  let extra = ref [("lookup", cmd_lookup_gen None); ("lookup_events", cmd_lookup_gen (Some true)); ("lookup_events_meta", cmd_lookup_gen (Some false)); ("pick", cmd_pick); ("estimate", cmd_estimate); ("plan", cmd_plan); ("segs", cmd_segs); ("por", cmd_por); ("bio", cmd_bio true); ("fio", cmd_bio false); ("zsd", cmd_zsd)] in
   try
     while true do
       let line = input_line stdin in
